@@ -18,7 +18,7 @@ def corpus():
     for i in range(len(G.corpus_files())):
         for ssc in (False, True):
             out.append({"t": ["corpus", i, 0], "strict": True, "ssc": ssc})
-    for t in ("#TITLE;", "#ATTACKS;", "#DISPLAYBPM;", "#VERSION:0.83;#DISPLAYBPM;#NOTEDATA:;#X;#NOTES;", "#NOTEDATA:;#NOTES2:1;#NOTES:2;",
+    for t in ("", " \n", "// only a comment\n", "#TITLE;", "#ATTACKS;", "#DISPLAYBPM;", "#VERSION:0.83;#DISPLAYBPM;#NOTEDATA:;#X;#NOTES;", "#NOTEDATA:;#NOTES2:1;#NOTES:2;",
               "#NOTEDATA:;#NOTES:2;#NOTES2:1;", "#TITLE:a\\:b;#NOTES:a:b:c:d:e:\n0000\n:x:y;"):
         for ssc in (False, True):
             out.append({"t": ["lit", t], "strict": True, "ssc": ssc})
